@@ -22,6 +22,8 @@ structure GoodDepth (data : List Nat) (m M : Nat) (depth depth' : List Nat) : Pr
   hsupp : ∀ v, v < m → (depth'.getD v 0 ≠ 0 ↔ data.getD v 0 ≠ 0)
   hlim : ∀ v, v < m → depth'.getD v 0 ≤ M
   hkraft : kraftSum M (depth'.take m) = 2 ^ M
+  /-- a code over `n` symbols has no code word longer than `n - 1` -/
+  hcnt : ∀ v, v < m → depth'.getD v 0 + 1 ≤ (descNZ data m).length
 
 /-- outcome of the part of one round that both builders share -/
 theorem round_spec (cmp : Node → Node → Bool) (hcmp : CmpOK cmp) (data : List Nat) (m M cl : Nat)
@@ -58,7 +60,8 @@ theorem round_spec (cmp : Node → Node → Bool) (hcmp : CmpOK cmp) (data : Lis
     intro _
     have h2 : 2 ≤ t.leaves.length := by omega
     refine
-      { hlen := assign_length _ _ _, hframe := ?_, hsupp := ?_, hlim := ?_, hkraft := ?_ }
+      { hlen := assign_length _ _ _, hframe := ?_, hsupp := ?_, hlim := ?_, hkraft := ?_,
+        hcnt := ?_ }
     · intro x hx
       exact assign_other t 0 depth x (fun h => by have := (hmem x).mp h; omega)
     · intro v hv
@@ -114,6 +117,15 @@ theorem round_spec (cmp : Node → Node → Bool) (hcmp : CmpOK cmp) (data : Lis
         | zero => rfl
         | succ m ih => simp [List.replicate_succ]
       rw [this]; simp
+    · intro v hv
+      have hh := T.height_succ_le t
+      by_cases hd : data.getD v 0 = 0
+      · have hnl : v ∉ t.leaves := fun h => ((hmem v).mp h).2 hd
+        rw [getD_of_getElem? _ _ _ (assign_other t 0 depth v hnl), hz v hv hd]
+        omega
+      · obtain ⟨x, h1, _, h3⟩ := assign_leaf_pos t h2 depth v ((hmem v).mpr ⟨hv, hd⟩) hlv
+        simp only [List.getD_eq_getElem?_getD, h1, Option.getD_some]
+        omega
   · obtain ⟨d', h1, h2, h3⟩ := hsd.2 (by omega)
     refine ⟨tree1, tree2, false, d', hc1, hb1, by rw [hb2, hc2], h1, (fun h => Bool.noConfusion h),
       fun _ => ⟨h2, ?_, ?_⟩, ?_⟩
@@ -144,7 +156,7 @@ theorem GoodDepth.trans_frame {data : List Nat} {m M : Nat} {d0 d1 d2 : List Nat
     (h : GoodDepth data m M d1 d2) (hl : d1.length = d0.length)
     (hf : ∀ x, m ≤ x → d1[x]? = d0[x]?) : GoodDepth data m M d0 d2 :=
   { hlen := h.hlen.trans hl, hframe := fun x hx => (h.hframe x hx).trans (hf x hx),
-    hsupp := h.hsupp, hlim := h.hlim, hkraft := h.hkraft }
+    hsupp := h.hsupp, hlim := h.hlim, hkraft := h.hkraft, hcnt := h.hcnt }
 
 /-- The retry loop of `BrotliCreateHuffmanTree` run for at most `f` rounds, none
 of which overflows the `u32` node counts: it either needs more rounds or
